@@ -47,7 +47,9 @@ CONSTANTS Kinds,                               \* subset of {"bins", "stats", "r
           TMaxLen, TVals, TYVals, TWts,
           FixedWhist,                          \* TRUE: whist of a one-member bin is its weight (repaired code)
           MergeVariant,                        \* "code" | "nodec" (deviating variant for the self-test)
-          DoExport
+          DoExport,
+          NanLen, NanVals,                     \* family "nan": data of length 1..NanLen over NanVals and NaN
+          SortVariant                          \* "argsort" (the code) | "skip" (deviating: identity when no `<` descent is seen)
 
 VARIABLES phase, c, st
 vars == <<phase, c, st>>
@@ -73,9 +75,13 @@ RepAt(h)   == LET a == (h % (NRep * NRep)) \div NRep  b == h % NRep IN <<a, b, (
 RepIndex(cc) == VSumF(LAMBDA i : cc.x[i] * (2 * i + 1) + cc.y[i] * 3 + cc.w[i] * 5, DOMAIN cc.x) + 17 * cc.b
                 + (IF cc.mode = "binsize" THEN 0 ELSE IF cc.mode = "nbin" THEN 29 ELSE 71) + (IF cc.merge THEN 37 ELSE 0)
                 + (IF cc.hasmin THEN 41 + 7 * cc.min ELSE 0) + (IF cc.hasmax THEN 59 + 11 * cc.max ELSE 0)
+\* the weight scale 2^wexp a case is run with (spread over the cases like the representations): mid-range scales where
+\* every intermediate of any formula is representable, and extreme ones where w^2 is not
+WExpSeq == <<0, -600, 400, 0, 600, -400, 0>>
+WExpOf(cc) == WExpSeq[((RepIndex(cc) \div 3) % Len(WExpSeq)) + 1]
 WithRep(cc) == [x |-> cc.x, y |-> cc.y, w |-> cc.w, mode |-> cc.mode, b |-> cc.b, merge |-> cc.merge,
                 hasmin |-> cc.hasmin, min |-> cc.min, hasmax |-> cc.hasmax, max |-> cc.max,
-                rep |-> RepOf(RepAt(RepIndex(cc)))]
+                rep |-> RepOf(RepAt(RepIndex(cc))), wexp |-> WExpOf(cc)]
 
 \* ---- family "reps" ---------------------------------------------------------------------------
 RepData  == {<<1, 2, 2, 5>>, <<4, 1, 3, 1, 2>>, <<3>>, <<5, 5, 1>>}
@@ -124,6 +130,40 @@ ChooseYW ==
           c' = WithRep([x |-> c.x, y |-> y, w |-> w, mode |-> m[1], b |-> m[2], merge |-> m[3],
                         hasmin |-> FALSE, min |-> 0, hasmax |-> FALSE, max |-> 0])
     /\ phase' = "case" /\ UNCHANGED st
+
+\* ---- family "nan": NaN inside the data, both limits given ----------------------------------------------
+\* every arrangement of finite values and NaN (ascending runs separated by NaN, descents hidden across a NaN, NaN first /
+\* last / adjacent, only NaN in range ...); the exported x carries max + 1 at the NaN positions (= BEff), `nan` lists them
+NanMark == 0
+NanModes == {<<"binsize", 2, FALSE>>, <<"nbin", 2, FALSE>>, <<"nperbin", 2, TRUE>>, <<"nperbin", 1, FALSE>>}
+NanLims  == {<<0, 5>>, <<2, 6>>}
+ChooseNanData ==
+    /\ phase = "start" /\ "nan" \in Kinds
+    /\ \E n \in 1..NanLen : \E x \in [1..n -> NanVals \cup {NanMark}] :
+          /\ \E i \in 1..n : x[i] = NanMark
+          /\ c' = [x |-> x]
+    /\ phase' = "ndata" /\ UNCHANGED st
+ChooseNanSpec ==
+    /\ phase = "ndata"
+    /\ \E m \in NanModes : \E lim \in NanLims :
+         LET x  == [i \in DOMAIN c.x |-> IF c.x[i] = NanMark THEN lim[2] + 1 ELSE c.x[i]]
+             wr == WithRep([x |-> x, y |-> DeriveY(x), w |-> DeriveW(x), mode |-> m[1], b |-> m[2], merge |-> m[3],
+                            hasmin |-> TRUE, min |-> lim[1], hasmax |-> TRUE, max |-> lim[2]])
+         IN c' = [x |-> wr.x, y |-> wr.y, w |-> wr.w, mode |-> wr.mode, b |-> wr.b, merge |-> wr.merge,
+                  hasmin |-> TRUE, min |-> wr.min, hasmax |-> TRUE, max |-> wr.max, rep |-> wr.rep, wexp |-> wr.wexp,
+                  nan |-> SelectSeq([i \in DOMAIN c.x |-> i], LAMBDA i : c.x[i] = NanMark)]
+    /\ phase' = "nancase" /\ UNCHANGED st
+\* the mechanism: Binner._get_sort_index + the limit filter of _get_minmax_and_indices.  Every comparison with NaN is
+\* FALSE; numpy's stable argsort puts NaN last.
+NanIs(cc, i)    == i \in VRange(cc.nan)
+NanLt(cc, i, j) == ~NanIs(cc, i) /\ ~NanIs(cc, j) /\ cc.x[i] < cc.x[j]
+NanSortIdx(cc, variant) ==
+    IF variant = "skip" /\ \A k \in 1..(Len(cc.x) - 1) : ~NanLt(cc, k + 1, k) THEN [i \in DOMAIN cc.x |-> i]
+    ELSE VStableArgsort([i \in DOMAIN cc.x |-> IF NanIs(cc, i) THEN 1000 ELSE cc.x[i]])
+NanWsort(cc, variant) == SelectSeq(NanSortIdx(cc, variant), LAMBDA j : ~NanIs(cc, j) /\ cc.min <= cc.x[j] /\ cc.x[j] <= cc.max)
+NanSortIndex ==
+    /\ phase = "nancase"
+    /\ st' = [wsort |-> NanWsort(c, SortVariant)] /\ phase' = "case" /\ UNCHANGED c
 
 \* ---- family "hist": call histories with rejected calls --------------------------------------------
 HData == {<<1, 2, 2, 5>>, <<4, 1, 3>>}
@@ -214,9 +254,9 @@ Assemble ==
     /\ phase = "stats"
     /\ st' = BMechObs(c, st.p, st.bins) /\ phase' = "done" /\ UNCHANGED c
 
-NextExport == ChooseData \/ ChooseSpec \/ ChooseX \/ ChooseYW \/ ChooseRepData \/ ChooseRep
+NextExport == ChooseData \/ ChooseSpec \/ ChooseX \/ ChooseYW \/ ChooseRepData \/ ChooseRep \/ ChooseNanData \/ ChooseNanSpec
               \/ HChooseData \/ HEvent \/ ChooseScalePattern \/ ChooseScale
-Next == NextExport \/ HistPass \/ NumPass \/ NumConvert \/ NumMerge \/ NumKeep \/ CalcStats \/ Assemble
+Next == NextExport \/ NanSortIndex \/ HistPass \/ NumPass \/ NumConvert \/ NumMerge \/ NumKeep \/ CalcStats \/ Assemble
 
 NextNoStats == NextExport \/ NumPass \/ NumConvert \/ NumMerge \/ NumKeep      \* self-test of MergeRefines
 Spec == Init /\ [][Next]_vars
@@ -327,6 +367,22 @@ ScaleFormulasDefined == phase = "scase" =>
              /\ BLMedian(c.y, P, T, K \div T)[2] \in {1, 2}
              /\ RAdd(BLMean(c.x, c.w, P, 1), RInt((c.scale.NB - 1) * BScStep(c)))[2] > 0
 
+\* NaN data: the sorted, limited index the passes are run on is the one the statement implies (the stable order of the
+\* data inside the limits, NaN in no bin); the deviating shortcut violates this
+NanSortRefines == (phase = "case" /\ "nan" \in DOMAIN c) => st.wsort = SortedLimited(BEff(c))
+
+\* scale covariance in the weights (the law that transports every weighted case to the scales 2^wexp)
+WScaleLawOn(v, w, P, s) ==
+    LET sw == [i \in DOMAIN w |-> s * w[i]]
+    IN /\ SMean(v, sw, P) = SMean(v, w, P)
+       /\ SVar(v, sw, P) = SVar(v, w, P)
+       /\ SSumW(sw, P) = s * SSumW(w, P)
+       /\ SErr2Inv(sw, P) = RDiv(SErr2Inv(w, P), RInt(s))
+       /\ SErr2Calc(v, sw, P, SMean(v, sw, P)) = SErr2Calc(v, w, P, SMean(v, w, P))
+\* (the law does not involve the bin specification: checked once per data triple, for every subset P as the members of a bin)
+WScaleLaw == (phase = "case" /\ c.mode = "binsize" /\ c.b = 2 /\ ~c.hasmin /\ ~c.hasmax /\ Len(c.w) > 0) =>
+    \A s \in {2, 4} : \A P \in (SUBSET DOMAIN c.x) \ {{}} : WScaleLawOn(c.x, c.w, P, s) /\ WScaleLawOn(c.y, c.w, P, s)
+
 \* ---- export -------------------------------------------------------------------------------------
-Export == (DoExport /\ (phase \in {"case", "scase"} \/ (phase = "hist" /\ Len(c.h) = HistLen))) => PrintT(<<"CASE", ToJson(c)>>)
+Export == (DoExport /\ (phase \in {"case", "scase", "nancase"} \/ (phase = "hist" /\ Len(c.h) = HistLen))) => PrintT(<<"CASE", ToJson(c)>>)
 =============================================================================
